@@ -110,23 +110,31 @@ def info_of(f):
     if ":" in kind:
         kind, cond = kind.split(":", 1)
     parts = kind.split("/")
-    if parts[0] == "cert" or parts[-1].startswith("cert-"):
-        site = "BHRZ03_Certificate" if "h79" not in parts[-1] else "H79_Certificate"
-        if parts[0] in ("H79", "BHRZ03"):
-            site = parts[0] + "_widening_assign+" + site
+    grid = any(p.startswith("Grid") for p in parts) or parts[0].startswith("psG")
+    certcls = "Grid_Certificate" if grid else ("H79_Certificate" if "h79" in parts[-1] else "BHRZ03_Certificate")
+    if parts[0].startswith("ps") and "." in parts[0]:
+        d, c, w = parts[0].split(".", 2)
+        site = "Pointset_Powerset<%s>::BHZ03_widening_assign<%s_Certificate>(%s)" % ("Grid" if d == "psG" else "C_Polyhedron", c, w)
+    elif parts[0] == "cert":
+        site = certcls
+    elif parts[-1].startswith("cert-"):
+        site = parts[0] + "_widening_assign+" + certcls
     elif parts[0] == "ps":
-        site = "Pointset_Powerset::is_cert_multiset_stabilizing"
-    elif parts[0] in ("input", "route", "hull"):
+        site = "Pointset_Powerset::is_cert_multiset_stabilizing" if len(parts) > 1 and parts[1].endswith("-tie") else "Pointset_Powerset"
+    elif parts[0] in ("input", "route", "hull", "join"):
         site = "/".join(parts[:2]) if parts[0] == "route" else parts[0]
     else:
-        # H79 | BHRZ03 on polyhedra; BDS.BHMZ05, OCT.CC76, BOX.CC76, ... on shapes and boxes
+        # H79 | BHRZ03 on polyhedra; BDS.BHMZ05, OCT.CC76, BOX.CC76, Grid.congruence, ... on the other domains
         site = parts[0] + ("_widening_assign" if len(parts) == 2 else "_extrapolation_assign/" + parts[1])
     info = {"site": site, "kind": parts[-1] if parts[0] not in ("cert", "ps") else "/".join(parts[1:]), "obligation": f.kind}
     if cond:
         info["cond"] = cond
     # an extrapolation that disagrees with the plain widening computed on copies of the same two objects
-    if info["kind"] in ("upper", "exact", "below-limited") and "_extrapolation_assign/" in site:
+    if info["kind"] in ("upper", "exact", "below-limited") and "_extrapolation_assign/" in site and not grid:
         info["class"] = "differs-from-plain-on-same-objects"
+    # grid extrapolations select the supplied congruences with Grid::relation_with(Congruence)
+    if grid and "_extrapolation_assign/" in site and cond and "gen-divisor" in cond:
+        info["class"] = "selection-by-relation_with-on-divisor"
     return info
 
 
@@ -163,6 +171,31 @@ def shrink_case(case, fline):
         elif d is None and case[i].startswith("cert") and deps and deps[0] in need:
             keep.add(i)
     return [case[0]] + [case[i] for i in sorted(keep) if i > 0] + ["end"]
+
+
+def pipeline(exe, judge, cases, tag):
+    work = os.path.join(common.BUILD, "work-C08-%s-%d" % (tag, os.getpid()))
+    shutil.rmtree(work, ignore_errors=True)
+    try:
+        kept, obs, crashes = run_harness(exe, cases, work, tag)
+        # the judge is run in chunks so that one pathological case cannot starve the rest
+        res, stat, cov, genbugs = [], collections.Counter(), collections.Counter(), []
+        blocks = {}
+        cur = None
+        for l in obs.split("\n"):
+            if l.startswith("case "):
+                cur = l.split()[1]; blocks[cur] = []
+            if cur is not None:
+                blocks[cur].append(l)
+        CH = 100
+        for i in range(0, len(kept), CH):
+            part = kept[i:i + CH]
+            ob = [l for c in part for l in blocks.get(c[0].split()[1], [])]
+            r, s, c, g = run_judge(judge, part, "\n".join(ob) + "\n", work, "%s-%d" % (tag, i))
+            res += r; stat.update(s); cov.update(c); genbugs += g
+    finally:
+        shutil.rmtree(work, ignore_errors=True)
+    return res, stat, cov, genbugs, crashes
 
 
 def run(chk):
@@ -206,26 +239,24 @@ def run(chk):
     for c in gen_widen.make_cases(chk.seed, ngen, quick=chk.quick):
         lines += c
     cases = split_cases(lines)
-    work = os.path.join(common.BUILD, "work-C08-%d" % os.getpid())
-    shutil.rmtree(work, ignore_errors=True)
-    try:
-        kept, obs, crashes = run_harness(exe, cases, work, "c08")
-        # the judge is run in chunks so that one pathological case cannot starve the rest
-        res, stat, cov, genbugs = [], collections.Counter(), collections.Counter(), []
-        CH = 100
-        for i in range(0, len(kept), CH):
-            part = kept[i:i + CH]
-            ids = set(c[0].split()[1] for c in part)
-            # observations of this chunk
-            ob, on = [], False
-            for l in obs.split("\n"):
-                if l.startswith("case "):
-                    on = l.split()[1] in ids
-                if on: ob.append(l)
-            r, s, c, g = run_judge(judge, part, "\n".join(ob) + "\n", work, "c08-%d" % i)
-            res += r; stat.update(s); cov.update(c); genbugs += g
-    finally:
-        shutil.rmtree(work, ignore_errors=True)
+    res, stat, cov, genbugs, crashes = pipeline(exe, judge, cases, "c08")
+    # ---- second pipeline: grids, certificates in every lazy state, the powerset lifting ----
+    judge2 = common.ocaml_build("judge_pswiden", ["gen/widen.mli", "gen/widen.ml", "wzutil.ml", "gen/grid.mli", "gen/grid.ml", "judge_pswiden.ml"])
+    exe2 = common.compile_harness("run_pswiden.cc")
+    lines2 = []
+    if chk.replay:
+        lines2 += json.load(open(chk.replay)).get("pscase", [])
+    if os.path.isdir(cdir):
+        for f in sorted(os.listdir(cdir)):
+            if f.endswith(".pscase"):
+                lines2 += open(os.path.join(cdir, f)).read().split("\n")
+    ncorpus2 = len(split_cases(lines2))
+    ngen2 = 0 if chk.replay else (150 if chk.quick else 2000)
+    for c in gen_widen.make_ps_cases(chk.seed, ngen2, quick=chk.quick):
+        lines2 += c
+    cases2 = split_cases(lines2)
+    res2, stat2, cov2, genbugs2, crashes2 = pipeline(exe2, judge2, cases2, "c08ps")
+    byid2 = {c[0].split(" ")[1]: c for c in cases2}
     byid = {c[0].split(" ")[1]: c for c in cases}
 
     chk.evaluations += stat.get("checks", 0)
@@ -252,6 +283,42 @@ def run(chk):
     for c in cases[ncorpus:ncorpus + 3]:
         chk.samples.append(" ; ".join(c[1:7])[:600])
 
+    # second pipeline evidence
+    chk.evaluations += stat2.get("checks", 0)
+    chk.undecided += stat2.get("undecided", 0)
+    chk.extra["cases"] += stat2.get("cases", 0)
+    chk.extra["verified_checks"] += stat2.get("checks", 0)
+    chk.extra["traces_validated_against_impl"] += stat2.get("cases", 0)
+    chk.extra["grid_and_powerset"] = {
+        "cases": stat2.get("cases", 0), "corpus_cases": ncorpus2, "verified_checks": stat2.get("checks", 0),
+        "certificates_by_lazy_state": {k[10:]: v for k, v in sorted(cov2.items()) if k.startswith("certstate:")},
+        "lazy_states_of_widened_receivers": {k[7:]: v for k, v in sorted(cov2.items()) if k.startswith("statex:")},
+        "grid_widening_calls": {k[6:]: v for k, v in sorted(cov2.items()) if k.startswith("widen:")},
+        "grid_extrapolation_calls": {k[4:]: v for k, v in sorted(cov2.items()) if k.startswith("lim:")},
+        "grid_iteration_steps": {k[5:]: v for k, v in sorted(cov2.items()) if k.startswith("step:")},
+        "powerset_widening_calls": {k[8:]: v for k, v in sorted(cov2.items()) if k.startswith("pswiden:")},
+        "powerset_steps": {k[7:]: v for k, v in sorted(cov2.items()) if k.startswith("psstep:")},
+        "powerset_value_dependence_pairs": {k[7:]: v for k, v in sorted(cov2.items()) if k.startswith("pssame:")},
+        "families": dict(collections.Counter(re.search(r"family=([\w-]+)", c[1]).group(1) for c in cases2 if len(c) > 1 and "family=" in c[1])),
+    }
+    for c in cases2:
+        chk.nontrivial.add(hash("\n".join(c)))
+    genbugs = genbugs + genbugs2
+    for f in res2:
+        if f.verdict == "UNDECIDED":
+            continue
+        info = info_of(f)
+        info["detail"] = f.detail
+        case = byid2.get(f.case, [])
+        upto = case[:case.index(f.line) + 1] + ["end"] if f.line in case else case
+        chk.failure(info, {"pscase": upto, "full_case_id": f.case, "step": f.step, "line": f.line, "judge": f.detail,
+                           "theorem": "the judged obligation is a hypothesis of certified_widening_terminates (certificate a function of the value; strict decrease on value-changing steps) or of tokens_spec / limited_between, decided on this result",
+                           "replay_cmd": "./check C08 --replay <this file>"})
+    for (case, line, how) in crashes2:
+        t = line.split()
+        chk.failure({"site": " ".join(t[:3]), "kind": "crash", "detail": how}, {"pscase": case, "line": line, "how": how})
+    if not chk.replay and sum(v for k, v in cov2.items() if k.startswith("psstep:") and k.endswith(":changed")) < 30:
+        chk.broken.append(("generator-too-weak", "fewer than 30 value-changing powerset widening steps"))
     if genbugs:
         chk.broken.append(("generator-precondition", "; ".join(genbugs[:5])))
     for f in res:
